@@ -165,7 +165,7 @@ class SourceFile:
         ranges = [(0, len(self.code))]
         found = None
         for si, seg in enumerate(segs):
-            m = re.match(r'(\w+)\s+(.*)$', seg, re.S)
+            m = re.match(r'(\w+)\s*(.*)$', seg, re.S)
             if not m:
                 raise LostAnchor(f'bad path segment {seg!r}')
             kw, want = m.group(1), m.group(2).strip()
